@@ -1,7 +1,7 @@
 # C08 — snapshotter: metadata, directories and backend mounts in step
 PROPS["C08"] = dict(
     props_file="Properties/C08.v",
-    harnesses=[dict(cmd="snap", mod="root", model="Model.Snap", quick=72, thorough=3000, shard=9, coq_jobs=8,
+    harnesses=[dict(cmd="snap", mod="root", model="Model.Snap", quick=250, thorough=5000, shard=21, coq_jobs=12,
                     require=["op.prepare", "op.prepare.target", "op.view", "op.commit", "op.mounts", "op.remove", "op.cleanup",
                              "op.update", "op.close", "cfg.async", "cfg.sync", "fault.mount"])],
     rule="random histories (6-28 calls) of Prepare(with/without target)/View/Commit/Mounts/Remove/Cleanup/Update/Stat/Close over 8 names "
